@@ -2568,7 +2568,9 @@ MANIFEST = {
             "stddev_; settings through setters or the ParamSet) and SpaceInformation::searchValidNearby (both overloads) are in the "
             "model and lock-stepped; the in-bounds half of the valid-state sampler clause is proved (for every inner sampler that "
             "keeps its contract, which the modelled default samplers of every space do), composed with enforce_inbounds through "
-            "searchValidNearby for every near state.",
+            "searchValidNearby for every near state. Follow-up: the samplers of the constrained spaces (ProjectedStateSampler, "
+            "AtlasStateSampler for Atlas / TangentBundle) over ambient boxes that cut the manifold, with the order project-then-clamp "
+            "in the model (projection = recorded answer) and the theorem that the result is in bounds for any projection.",
     "note": "Trusted: Lean kernel, the three standard axioms, the hand-written model outside the inputs the correspondence explored, "
             "the harness. Real sampler outputs are sampled, not proved (OMPL's RNG cannot be scripted); the theorems are over real "
             "numbers, IEEE rounding is executed but not verified; states are finite, bounds satisfy lo <= hi, centres are in bounds.",
